@@ -22,7 +22,7 @@ LEVEL = "exploration"
 BATCH = 1
 TIMEOUT = 600
 REQUIRED_OBS = ["window_evaluations", "boundary_evaluations", "piecewise_families_checked", "fmt_krome", "fmt_kida", "fmt_umist",
-                "fmt_leeds", "fmt_uclchem", "fmt_naunet", "outside_exact_zero_checked"]
+                "fmt_leeds", "fmt_uclchem", "fmt_naunet", "outside_exact_zero_checked", "fex_calls_checked"]
 RULE = ("per case one file (kida, umist, leeds, uclchem, krome with .LE./.GE./</>/NONE/d-exponent syntax, native) of reactions with "
         "window shapes none / lower only / upper only / both, plus 1-2 piecewise families of 2-4 adjacent windows; temperatures: "
         "nextafter(bound, -inf), bound, nextafter(bound, +inf) for every bound, mid-window, 1e-3 and 1e9; non-trivial = case has a "
@@ -82,8 +82,8 @@ def make_case(rng, fmt):
             r["reactants"], r["products"] = list(fam_names), list(prod)
     if fmt == "krome":
         for r in reacs:
-            style = rng.choice(["num", "ops", "dexp", "num"])
             def enc(v, upper):
+                style = rng.choice(["num", "ops", "ops", "dexp"])      # per bound: primordial.krome mixes `.LE.5.5e3` with `>5.5e3`
                 if v <= 0:
                     return rng.choice(["NONE", "N", ""])
                 s = encode._num(v)
@@ -129,7 +129,7 @@ def run_case(case, ctx):
         net = Network(filelist=str(p), fileformats=fmt)
         proj = work / "proj"
         net.to_code(method="dense", path=str(proj))
-        b = lab.build_cvode(proj, work / "b", "dense", ctx.cache, core_only=True)
+        b = lab.build_cvode(proj, work / "b", "dense", ctx.cache, core_only=True)      # with the EvalRates seam on fex/jac
     except lab.BuildError as e:
         return {"status": "violated", "violations": [violation("emitted_code_does_not_compile", f"{fmt}: {e.unit}: {'; '.join(e.diagnostics()[:2])}")],
                 "obs": dict(obs), "sample": sample}
@@ -148,11 +148,36 @@ def run_case(case, ctx):
     cmds = ["set nH 1e4", "y " + " ".join("1.0" for _ in range(max(1, macros["NSPECIES"])))]
     for T in temps:
         cmds += [f"set Tgas {lab.fmt(T)}", "rates", "rates_nan"]
+    # the dynamics: Fex and Jac called repeatedly in one process while T moves in and out of the windows
+    # (ascending then descending), the rate vector they actually used is logged by the EvalRates seam
+    sweep = temps + temps[::-1]
+    cmds.append("mode pass")
+    for T in sweep:
+        cmds += [f"set Tgas {lab.fmt(T)}", "fex", "jac"]
     rr = lab.run_driver(b["exe"], cmds, work / "b")
     if rr.crashed() or rr.sanitizer_reports:
         return {"status": "violated", "violations": [violation("sanitizer_report_or_crash", (rr.sanitizer_reports or ["driver crashed"])[0][:300], stderr=rr.stderr[-1200:])],
                 "obs": dict(obs), "sample": sample}
     ev0, evn = rr.by_ev("rates"), rr.by_ev("rates_nan")
+    fex_ev = rr.by_ev("fex")
+    for T, fe in zip(sweep, fex_ev):
+        obs["fex_calls_checked"] += 1
+        for i, r in enumerate(reacs):
+            want = r["alpha"] if active(r, T) else 0.0
+            if fe["k"][i] != want:
+                viol.append(violation("fex_used_stale_or_wrong_rate", f"{fmt} reaction {i} window [{r['tmin']},{r['tmax']}) at T={T!r}: Fex used k={fe['k'][i]!r}, "
+                                      f"expected {want!r}", T=T))
+                break
+        if viol:
+            break
+    for T, je in zip(sweep, rr.by_ev("jac")):
+        obs["jac_calls_checked"] += 1
+        bad = [i for i, r in enumerate(reacs) if je["k"][i] != (r["alpha"] if active(r, T) else 0.0)]
+        if bad:
+            i = bad[0]
+            viol.append(violation("jac_used_stale_or_wrong_rate", f"{fmt} reaction {i} window [{reacs[i]['tmin']},{reacs[i]['tmax']}) at T={T!r}: Jac used "
+                                  f"k={je['k'][i]!r}", T=T))
+            break
     fams = {}
     for i, r in enumerate(reacs):
         if r["family"] is not None:
